@@ -202,6 +202,11 @@ func c12Body() func(h []dsim.Rec) {
 	if dsim.Choose(3) == 2 {
 		dsim.EnableStalls(1 + dsim.Choose(30))
 	}
+	if dsim.Choose(3) == 0 {
+		// goroutines take their time to start: Close must wait for those it has not seen run yet
+		dsim.NewbornLast(true)
+		count("cov:newborn-goroutines-scheduled-last")
+	}
 	e := newEnv(cfg)
 	e.w.ChunkMode = dsim.Choose(3)
 	e.w.SendBuf = dsim.Pick(300, 1<<16, 4096)
@@ -374,11 +379,22 @@ func c12Body() func(h []dsim.Rec) {
 	returned := false
 	t0 := e.now()
 	dsim.Record("close-call", "", nil, int64(t0))
+	var aliveAtReturn []string
 	dsim.Go("closer", func() {
 		e.node.Close()
 		dsim.EnsureReleased("closer")
+		// the instant Close returns: every goroutine the node started has ended (not "will end soon")
+		// (a goroutine that has called wg.Done and is returning through its remaining deferred calls
+		// is a tail every WaitGroup join has; one that has not even begun to run was not waited for)
+		var alive []string
+		for _, t := range nodeTasksAlive() {
+			if strings.HasSuffix(t, "@start") {
+				alive = append(alive, t)
+			}
+		}
 		e.mu.Lock()
 		returned = true
+		aliveAtReturn = alive
 		e.mu.Unlock()
 		dsim.Record("close-return", "", nil, int64(e.now()-t0))
 	})
@@ -402,6 +418,13 @@ func c12Body() func(h []dsim.Rec) {
 	if !ret {
 		dsim.Failf("close-terminates", "Close had not returned %v (simulated) after it was called at t=%v; write timeout %v, read/dial timeout %v; config %s; tasks of the node still alive: %v",
 			bound, t0, wto, rto, cfg, nodeTasksAlive())
+		return nil
+	}
+	e.mu.Lock()
+	early := aliveAtReturn
+	e.mu.Unlock()
+	if len(early) > 0 {
+		dsim.Failf("close-waits-for-goroutines", "at the instant Close returned (t=%v) %d goroutine(s) started by the node had not even begun to run: %v", t0, len(early), early)
 		return nil
 	}
 	if !e.checkReleased("close-releases") {
